@@ -161,6 +161,22 @@ func Flatten(root *ssa.Function, depth int, inlinable func(ssa.CallInstruction, 
 					continue
 				}
 				t := Callee(call)
+				if t == nil && fr.Site != nil {
+					// a function-typed parameter of a helper frame called in it: the literal (or function) the caller
+					// handed over runs here (`runGuarded(t, func(t *T) { … })`)
+					if p, isP := Strip(call.Common().Value).(*ssa.Parameter); isP && p.Parent() == fr.Fn {
+						if idx := paramIndex(p); idx >= 0 && idx < len(fr.Site.Common().Args) {
+							switch a := Strip(fr.Site.Common().Args[idx]).(type) {
+							case *ssa.MakeClosure:
+								if f, ok := a.Fn.(*ssa.Function); ok && f.Synthetic == "" {
+									t = f
+								}
+							case *ssa.Function:
+								t = a
+							}
+						}
+					}
+				}
 				if t == nil || stack[t] || !inlinable(call, t) {
 					continue
 				}
@@ -305,7 +321,16 @@ func (x FV) ResolveTrace(stop func(*ssa.Function) bool) (FV, []FV) {
 			x = FV{args[idx], x.F.Parent}
 		case *ssa.FreeVar:
 			// a captured variable of a literal running inside the function that created it
-			if x.F == nil || x.F.Parent == nil || y.Parent() != x.F.Fn || x.F.Parent.Fn != x.F.Fn.Parent() {
+			if x.F == nil || x.F.Parent == nil || y.Parent() != x.F.Fn {
+				return FV{v, x.F}, trace
+			}
+			// the frame of the function that created the literal: the caller, or — when the literal was handed to a
+			// helper which calls it — a frame further out
+			creator := x.F.Parent
+			for creator != nil && creator.Fn != x.F.Fn.Parent() {
+				creator = creator.Parent
+			}
+			if creator == nil {
 				return FV{v, x.F}, trace
 			}
 			al, isAl := FreeVarBinding(y).(*ssa.Alloc)
@@ -313,7 +338,7 @@ func (x FV) ResolveTrace(stop func(*ssa.Function) bool) (FV, []FV) {
 				// the captured variable's cell is some other address of the creator's frame (a per-iteration loop
 				// variable: a phi of cells); addresses stand for their loads here, as with fields
 				if b := FreeVarBinding(y); b != nil {
-					x = FV{b, x.F.Parent}
+					x = FV{b, creator}
 					continue
 				}
 				return FV{v, x.F}, trace
@@ -322,7 +347,7 @@ func (x FV) ResolveTrace(stop func(*ssa.Function) bool) (FV, []FV) {
 			if len(sts) != 1 {
 				return FV{v, x.F}, trace
 			}
-			x = FV{sts[0].Val, x.F.Parent}
+			x = FV{sts[0].Val, creator}
 		case *ssa.FieldAddr, *ssa.Field:
 			// a field of a struct built locally (a literal, possibly handed to a helper by value): the value it was
 			// given there
